@@ -273,8 +273,38 @@ def check_ctor(c, rec):
                                                 f"(empty parameter list or nesterov without momentum / with dampening)")
 
 
+@st.composite
+def _init(draw, kind):
+    c = draw(histories(kind))
+    c["steps"] = []
+    return c
+
+
+@st.composite
+def _command(draw):
+    k = draw(st.sampled_from(["backward", "backward", "step", "step", "step", "zero_grad", "toggle"]))
+    if k == "backward":
+        return {"k": "backward", "c": [draw(st.integers(-16, 16)) / 8.0 for _ in range(6)],
+                "mask": draw(st.sampled_from([[1, 1, 1, 1], [1, 1, 1, 1], [1, 0, 1, 1], [0, 1, 1, 0], [0, 0, 1, 1]]))}
+    if k == "toggle":
+        return {"k": "toggle", "i": draw(st.integers(0, 5))}
+    return {"k": k}
+
+
+def _assemble(init, cmds):
+    c = dict(init)
+    if init["hp"].get("eps", 1) == 0:          # same normalisation as the list generator: the rule itself is 0/0 at g = 0
+        cmds = [dict(s_, c=[v if v != 0 else 0.125 for v in s_["c"]], mask=[1, 1, 1, 1]) if s_["k"] == "backward" else s_
+                for s_ in cmds if s_["k"] not in ("zero_grad", "toggle")]
+    c["steps"] = cmds
+    return c
+
+
 def subchecks():
-    subs = [SubCheck(k, check_history, (lambda k=k: histories(k)), quick=500, thorough=4000, shards_quick=4,
+    from ..core import command_machine
+    subs = [SubCheck(k + "_rule_based", check_history, None, machine=command_machine(_init(k), _command(), _assemble), steps=16,
+                     quick=60, thorough=500, shards_quick=2, shards_thorough=4) for k in ("sgd", "adam", "adamw")]
+    subs += [SubCheck(k, check_history, (lambda k=k: histories(k)), quick=500, thorough=4000, shards_quick=4,
                      shards_thorough=8) for k in ("sgd", "adam", "adamw")]
     subs.append(SubCheck("sgd_constructor", check_ctor, ctor_cases, quick=60, thorough=200))
-    return subs
+    return subs[3:] + subs[:3]
